@@ -48,7 +48,7 @@ RenderAttrs(attrs, q, sp, rev) ==
         RECURSIVE R(_)
         R(i) == IF i > n THEN <<>>
                 ELSE LET a == IF rev THEN attrs[n + 1 - i] ELSE attrs[i] IN
-                     (IF sp THEN <<32, 10>> ELSE <<32>>) \o a[1] \o (IF sp THEN <<32, 61, 32>> ELSE <<61>>) \o <<q>>
+                     (IF sp THEN <<32, 10>> ELSE <<32>>) \o a[1] \o (IF sp THEN <<9, 13, 10, 61, 10, 9, 32>> ELSE <<61>>) \o <<q>>      \* every kind of white space around '='
                      \o Esc(a[2], "full") \o <<q>> \o R(i + 1) IN
     R(1)
 \* unknown children whose own children repeat their name (the skip must count nesting), with text and other names inside
@@ -158,7 +158,11 @@ InvisibleToEvents(st) == ~st.unkAttr /\ ~st.unkFirst /\ ~st.unkLast
 \* ---------------------------------------------------------------- interleavings
 \* children of the root element of a logical document, as [name, lo, hi] index ranges into L
 \* list fields of the element named nm at nesting depth d (0 = root) of family type tyn
-ListFields(tyn) == IF tyn = "F22" THEN {n_a, n_b} ELSE IF tyn = "F23" THEN {n_a, n_b, n_d} ELSE IF tyn = "F26" THEN {n_a, n_b} ELSE IF tyn = "F29" THEN {n_a, n_b, n_d} ELSE IF tyn = "F33" THEN {n_a, n_b} ELSE {}
+ListFields(tyn) == IF tyn = "F22" THEN {n_a, n_b} ELSE IF tyn = "F23" THEN {n_a, n_b, n_d} ELSE IF tyn = "F26" THEN {n_a, n_b} ELSE IF tyn = "F29" THEN {n_a, n_b, n_d} ELSE IF tyn = "F33" THEN {n_a, n_b} ELSE IF tyn = "F34" THEN {<<112>>, <<120>>, <<113>>} ELSE {}
+\* A fixed-size sequence (array, tuple) stops after its last item instead of scanning to the parent's end tag, so what has to be
+\* buffered follows another rule; for such types the buffer model is not claimed (HeldOf = 0: only "the value or TooManyEvents,
+\* monotone in the limit" is checked)
+HasFixedList(tyn) == tyn = "F34"
 \* nesting depth of the struct whose children are interleaved (0 = the root element)
 StructDepth(tyn) == IF tyn = "F33" THEN 1 ELSE 0
 InnerLists(tyn, nm) == IF tyn = "F26" /\ nm = n_a THEN {n_a, n_b} ELSE IF tyn = "F23" /\ nm = n_b THEN {n_a} ELSE IF tyn = "F29" /\ nm = n_b THEN {n_b} ELSE {}
@@ -246,6 +250,6 @@ Inv_Emit ==
                                            udocs |-> {RenderDoc(Tree, st) : st \in {x \in Rewrites(Tree, ty) \cup Combos(Tree, ty) : ~InvisibleToEvents(x)}}])>>)
           [] Mode = "interleave" /\ phase = 1 ->
                 PrintT(<<"REPLAY", ToJson([ty |-> ty, v |-> v,
-                                           cases |-> {<<RenderDoc(Reassemble(TreeI, o, ty), BaseStyle), Held(o, ListFields(ty)), SumSizes(o)>> : o \in Inter(ChildrenOf(TreeI, ty))}])>>)
+                                           cases |-> {<<RenderDoc(Reassemble(TreeI, o, ty), BaseStyle), IF HasFixedList(ty) THEN 0 ELSE Held(o, ListFields(ty)), SumSizes(o)>> : o \in Inter(ChildrenOf(TreeI, ty))}])>>)
           [] OTHER -> TRUE
 =============================================================================
